@@ -82,7 +82,7 @@ def add_bypattern_suite(c, samples):
 
 
 def main(tier=None):
-    c = Check("C01", ["Wasp.Properties.C01", "Wasp.Properties.E2E", "Wasp.Properties.E2EMulti", "Wasp.Properties.Reachable2"], tier)
+    c = Check("C01", ["Wasp.Properties.C01", "Wasp.Properties.C01SessLit", "Wasp.Properties.E2E", "Wasp.Properties.E2EMulti", "Wasp.Properties.Reachable2"], tier)
     c.build()
     rng = c.rng
     samples = []
